@@ -138,10 +138,37 @@ def conv_num(v, old, new):
         raise OutOfRange()
     if ival and abs(v) > 2**53:
         raise OutOfRange()
-    out = f32(fv) if new == "float32" else f64(fv)
+    try:
+        out = f32(fv) if new == "float32" else f64(fv)
+    except OverflowError:
+        raise OutOfRange()       # float64 beyond the float32 range: yardl reports an overflow; not pinned down by the docs
     if new == "float32" and not ival and fv == fv and abs(fv) not in (0.0, float("inf")) and (out.value in (float("inf"), float("-inf")) or out.value == 0.0):
         raise OutOfRange()
     return out
+
+
+# What is written for a field that the source version does not have. The documentation says "the zero value for a type"; when the newest
+# writer targets an old version there are two readings for a removed field whose (record) type still exists in the newest model: the zero
+# value of the old type, or the zero value of the newest model's type converted to the old one (what default-constructing the generated
+# class does: `ic: int64?` in the old model and `ic: int64` in the newest gives null vs 0). Both are accepted (don't-care); one reading is
+# applied to the whole stream.
+import threading
+
+_MODE = threading.local()      # chains are evaluated by a thread pool
+
+
+def missing_value(co: Codec, cn: Codec, t):
+    if getattr(_MODE, "via_source_model", False):
+        tt = cn.res(t)
+        if isinstance(tt, N) and not tt.args:
+            try:
+                src = co.fq(N(tt.name))
+                d, _ = co.env.lookup(src)
+                if isinstance(d, Rec):
+                    return conv(co, src, cn, t, zero_value(co, src))
+            except (CodecError, KeyError, AttributeError, TypeError):
+                pass
+    return zero_value(cn, t)
 
 
 def conv(co: Codec, to, cn: Codec, tn, v):
@@ -153,7 +180,11 @@ def conv(co: Codec, to, cn: Codec, tn, v):
     if n_opt and not isinstance(to, U):
         return (0, conv(co, to, cn, tn.cases[0][1], v))
     if o_opt and not isinstance(tn, U):
-        return zero_value(cn, tn) if v is None else conv(co, to.cases[0][1], cn, tn, v[1])
+        if v is None:
+            if getattr(_MODE, "via_source_model", False):      # second reading: the zero value of the source model's type, converted
+                return conv(co, to.cases[0][1], cn, tn, zero_value(co, to.cases[0][1]))
+            return zero_value(cn, tn)
+        return conv(co, to.cases[0][1], cn, tn, v[1])
     if isinstance(to, P) and isinstance(tn, P):
         if to.name == tn.name or {to.name, tn.name} == {"uint64", "size"}:
             return v
@@ -173,7 +204,7 @@ def conv(co: Codec, to, cn: Codec, tn, v):
             if name in old:
                 out.append(conv(co, old[name][0], cn, t, old[name][1]))
             else:
-                out.append(zero_value(cn, t))
+                out.append(missing_value(co, cn, t))
         return out
     if isinstance(to, V) and isinstance(tn, V):
         return [conv(co, to.item, cn, tn.item, x) for x in v]
@@ -304,7 +335,17 @@ def run(ctx):
                 # ---- write old
                 vals_n = values.ValueGen(cn, rng("C05w", key, i, k), quiet_nan_only=True, max_len=3).steps(pn, stream_len=[0, 1, 3][k % 3])
                 try:
-                    want_o = conv_protocol(cn, pn, co, po, vals_n)
+                    want_o = [conv_protocol(cn, pn, co, po, vals_n)]
+                    _MODE.via_source_model = True
+                    try:
+                        alt = conv_protocol(cn, pn, co, po, vals_n)
+                    except (OutOfRange, IntOverflow):
+                        alt = None
+                    finally:
+                        _MODE.via_source_model = False
+                    if alt is not None and alt != want_o[0]:
+                        want_o.append(alt)
+                        ctx.count("write-old.two-readings-of-default")
                 except OutOfRange:
                     ctx.count("valueset.out-of-range")
                     continue
@@ -313,12 +354,12 @@ def run(ctx):
                 ctx.ev()
                 ctx.count("write-old")
                 ctx.case((key, i, "write", k))
-                if judge(ctx, co, po, want_o, pr, sch_old, "chain %s (%s): newest writer targeting v%d" % (key, edits, i), {"case_dir": base, "version": i, "values": repr(vals_n)[:1500]}, "write-old"):
+                if judge(ctx, co, po, want_o, pr, sch_old, "chain %s (%s): newest writer targeting v%d" % (key, edits, i), {"case_dir": base, "version": i, "values": repr(vals_n)[:1500]}, "write-old", alternatives=True):
                     # the old version's own reader must accept it with the same values
                     pr2 = cxx.run_driver(exe_old, ["Evo", "bin", "bin"], pr.out, "plain")
                     ctx.ev()
                     ctx.count("old-reader")
-                    if not judge(ctx, co, po, want_o, pr2, sch_old, "chain %s (%s): v%d's own reader on what the newest writer produced for it" % (key, edits, i), {"case_dir": base, "version": i}, "old-reader"):
+                    if not judge(ctx, co, po, want_o, pr2, sch_old, "chain %s (%s): v%d's own reader on what the newest writer produced for it" % (key, edits, i), {"case_dir": base, "version": i}, "old-reader", alternatives=True):
                         bad = True
                 else:
                     bad = True
@@ -333,7 +374,7 @@ def run(ctx):
     cxx.prune_cache()
 
 
-def judge(ctx, codec, proto, want, pr, schema_expected, what, case, kind):
+def judge(ctx, codec, proto, want, pr, schema_expected, what, case, kind, alternatives=False):
     sig = msg = None
     if pr.timed_out:
         raise Inconclusive("watchdog: " + what)
@@ -354,7 +395,13 @@ def judge(ctx, codec, proto, want, pr, schema_expected, what, case, kind):
             elif d["end"] != len(pr.out):
                 sig, msg = "trailing:%s" % kind, "trailing bytes"
             else:
-                df = first_diff(canon_steps(codec, proto, want), canon_steps(codec, proto, d["values"]))
+                wants = want if alternatives else [want]
+                got = canon_steps(codec, proto, d["values"])
+                df = None
+                for w in wants:
+                    df = first_diff(canon_steps(codec, proto, w), got)
+                    if not df:
+                        break
                 if df:
                     sig, msg = "value:%s" % kind, "converted values differ from the documented conversion at %s" % df
     if sig:
